@@ -47,7 +47,12 @@ pub fn generate(cx: &super::GenCtx) -> Vec<Plan> {
     }
     let spec = gen::random_posspec(&mut rng);
     let d = if spec.dense {
-        *rng.pick(&[1u64, 2, 2, 3, 3, 3, 4])
+        // depth 4 only on positions that are not too crowded (quiescence can explode)
+        if spec.pos().piece_count() <= 22 {
+            *rng.pick(&[1u64, 2, 2, 3, 3, 3, 4])
+        } else {
+            *rng.pick(&[1u64, 2, 2, 3, 3, 3])
+        }
     } else {
         rng.range(1, 5)
     };
